@@ -24,6 +24,8 @@ pub enum Hint {
     LieHigh,
     /// claims exactly `k` whatever it holds (set by the case): (k, Some(k))
     Fixed(usize),
+    /// an inconsistent hint whose lower bound exceeds its upper bound: (lo, Some(hi)) with lo > hi - it rules every length out
+    Inverted(usize, usize),
 }
 
 #[derive(Default, Debug)]
@@ -96,6 +98,7 @@ impl<T> Iterator for ScriptIter<T> {
             Hint::LieLow => (0, Some(r.saturating_sub(1))),
             Hint::LieHigh => (r + 1, Some(r + 1)),
             Hint::Fixed(k) => (k, Some(k)),
+            Hint::Inverted(lo, hi) => (lo, Some(hi)),
         }
     }
 }
@@ -107,6 +110,7 @@ impl Hint {
             Hint::LieLow => r == 0,
             Hint::LieHigh => false,
             Hint::Fixed(k) => *k == r,
+            Hint::Inverted(..) => false,
             _ => true,
         }
     }
@@ -121,6 +125,7 @@ impl Hint {
             Hint::LieLow => (0, Some(r.saturating_sub(1))),
             Hint::LieHigh => (r + 1, Some(r + 1)),
             Hint::Fixed(k) => (*k, Some(*k)),
+            Hint::Inverted(lo, hi) => (*lo, Some(*hi)),
         };
         lo > n || hi.map(|h| h < n).unwrap_or(false)
     }
